@@ -364,11 +364,12 @@ func checkC15(w *World, r *Report) {
 	vfr := tm.Root(validate)
 	dup := map[string]map[string]bool{}
 	dupWhere := map[string]string{}
-	for _, b := range validate.Blocks {
-		for _, in := range b.Instrs {
+	// the duplicate tests of the validator, wherever they are written (the method itself or helpers it calls)
+	tm.walkFrom(vfr, func(vfr *Frame, in ssa.Instruction) {
+		{
 			lk, ok := in.(*ssa.Lookup)
 			if !ok || !lk.CommaOk {
-				continue
+				return
 			}
 			kt := tm.Of(vfr, lk.Index)
 			var list string
@@ -391,7 +392,7 @@ func checkC15(w *World, r *Report) {
 				return true
 			})
 			if list == "" {
-				continue
+				return
 			}
 			// only fields applied directly to the element (or the unpacked element)
 			direct := map[string]bool{}
@@ -404,7 +405,7 @@ func checkC15(w *World, r *Report) {
 			dup[list] = direct
 			dupWhere[list] = w.instrPos(in)
 		}
-	}
+	})
 	for _, l := range lists {
 		coll := importInto[l]
 		if coll == "" {
